@@ -81,25 +81,25 @@ type seqSnap struct {
 }
 
 type seqRun struct {
-	c       *Ctx
-	v       *sxView
-	cur     *seqState
-	snaps   []seqSnap
-	ints    map[types.Object]int64   // integer parameters
-	intArgs map[types.Object][]int64 // integer slice parameters (Delete's indexes)
-	nVals   map[types.Object]int     // variadic value parameters: number of arguments
-	bind    map[types.Object]string  // symbolic elements bound to variables (range value)
-	loopInt map[int]map[types.Object]int64
-	nextArr int
-	convs   int          // conversions performed by per-step Add calls (each yields its own element)
-	other   types.Object // the other list (Concat)
-	made    map[string]seqSlice // make([]field…) terms already allocated (a term denotes one allocation)
-	madeMap map[string]int
-	opnd    func(Term) bool // the native operand of a From-constructor (a slice or map of opndLen symbolic entries)
-	opndLen int
+	c         *Ctx
+	v         *sxView
+	cur       *seqState
+	snaps     []seqSnap
+	ints      map[types.Object]int64   // integer parameters
+	intArgs   map[types.Object][]int64 // integer slice parameters (Delete's indexes)
+	nVals     map[types.Object]int     // variadic value parameters: number of arguments
+	bind      map[types.Object]string  // symbolic elements bound to variables (range value)
+	loopInt   map[int]map[types.Object]int64
+	nextArr   int
+	convs     int                 // conversions performed by per-step Add calls (each yields its own element)
+	other     types.Object        // the other list (Concat)
+	made      map[string]seqSlice // make([]field…) terms already allocated (a term denotes one allocation)
+	madeMap   map[string]int
+	opnd      func(Term) bool // the native operand of a From-constructor (a slice or map of opndLen symbolic entries)
+	opndLen   int
 	sliceVars map[types.Object]seqSlice // loop-carried slice locals (accumulate-then-assign)
-	why     string
-	panic   string
+	why       string
+	panic     string
 }
 
 func (r *seqRun) fail(f string) {
@@ -178,8 +178,8 @@ func (r *seqRun) containerKey(t Term) string {
 	if _, isLit := t.(TLit); isLit {
 		return "new:" + key(t)
 	}
-	if call, ok := t.(TCall); ok && call.Fun != nil && call.Fun.Pkg() == r.c.Types && len(call.Args) == 0 && (call.Fun.Name() == "NewObject" || call.Fun.Name() == "NewList") {
-		return "new:" + key(t) // an empty container made by the public constructor
+	if call, ok := t.(TCall); ok && call.Fun != nil && call.Fun.Pkg() == r.c.Types && call.Recv == nil && (call.Fun.Name() == "NewObject" || call.Fun.Name() == "NewList") {
+		return "new:" + key(t) // a container made by the public constructor (with arguments: filled by the call step, see exec)
 	}
 	return ""
 }
@@ -777,6 +777,47 @@ func (r *seqRun) exec(steps []Step) bool {
 				}
 				r.fail("sort.Ints on something that is not the index argument list")
 				return false
+			case call.Recv == nil && call.Fun.Pkg() == r.c.Types && len(call.Args) > 0 && (call.Fun.Name() == "NewList" || call.Fun.Name() == "NewObject"):
+				// the public constructor with values: the conversion of each, in order (NewList: C05.R9's constructor; NewObject: Set of the pairs, C06.R1)
+				var cs []string
+				if call.Site != nil && call.Site.Ellipsis.IsValid() && len(call.Args) == 1 {
+					src, ok := r.slice(call.Args[0])
+					if !ok {
+						return false
+					}
+					cs = r.cells(r.cur, src)
+				} else {
+					for _, a := range unpack(call.Args) {
+						c, ok := r.cell(a)
+						if !ok {
+							return false
+						}
+						cs = append(cs, c)
+					}
+				}
+				k := r.containerKey(*call)
+				if call.Fun.Name() == "NewList" {
+					vals := make([]string, 0, len(cs)+2)
+					for _, c := range cs {
+						vals = append(vals, "pv("+c+")")
+					}
+					n := len(vals)
+					r.cur.spine[k] = seqSlice{id: r.newArr(append(vals, "stale", "stale")), len: n, cap: n + 2}
+				} else {
+					if len(cs)%2 != 0 {
+						r.panic = "NewObject with an odd number of values"
+						return false
+					}
+					id, ok := r.objectMap(*call)
+					if !ok {
+						r.fail("constructor call the model cannot follow: " + r.c.termStr(*call))
+						return false
+					}
+					for i := 0; i+1 < len(cs); i += 2 {
+						r.cur.maps[id].set(cs[i], "pv("+cs[i+1]+")")
+					}
+				}
+				r.snapshot(st.Heap)
 			case call.Fun.Name() == "Init":
 				// registration of the ego: no effect on spines
 			case call.Recv != nil && strings.HasPrefix(r.containerKey(call.Recv), "new:") && call.Fun.Name() == "Set":
@@ -891,7 +932,32 @@ func (r *seqRun) loop(l *LoopRec) bool {
 	// loop-carried slice locals start from their value before the loop
 	isFieldSlice := func(o types.Object) bool {
 		sl, ok := o.Type().Underlying().(*types.Slice)
-		return ok && types.Identical(sl.Elem(), r.c.Inv().Field)
+		if !ok {
+			return false
+		}
+		if it, isIface := sl.Elem().Underlying().(*types.Interface); isIface && it.Empty() {
+			return true // []any: values collected for a constructor
+		}
+		return types.Identical(sl.Elem(), r.c.Inv().Field)
+	}
+	carriedInts := map[types.Object]bool{}
+	if l.Range != nil {
+		// integers a range loop carries along (a position counter kept by hand)
+		for o, t := range l.Init {
+			if !isIntType(o.Type()) {
+				continue
+			}
+			e := &termEnv{hook: r.intHook()}
+			n, ok := e.int(t)
+			if !ok {
+				continue // not foldable: a use fails where it occurs
+			}
+			if r.loopInt[l.ID] == nil {
+				r.loopInt[l.ID] = map[types.Object]int64{}
+			}
+			r.loopInt[l.ID][o] = n
+			carriedInts[o] = true
+		}
 	}
 	for o, t := range l.Init {
 		if isFieldSlice(o) {
@@ -919,6 +985,24 @@ func (r *seqRun) loop(l *LoopRec) bool {
 				return false
 			}
 			r.sliceVars[o] = s
+		}
+		next := map[types.Object]int64{}
+		for o := range carriedInts {
+			nt, ok := sel.Env[o]
+			if !ok {
+				continue
+			}
+			e := &termEnv{hook: r.intHook()}
+			n, ok := e.int(nt)
+			if !ok {
+				delete(r.loopInt[l.ID], o)
+				delete(carriedInts, o)
+				continue
+			}
+			next[o] = n
+		}
+		for o, n := range next {
+			r.loopInt[l.ID][o] = n
 		}
 		return true
 	}
@@ -1026,6 +1110,27 @@ func (r *seqRun) loop(l *LoopRec) bool {
 		n, isVals := 0, false
 		if ok {
 			n, isVals = r.nVals[tv.Obj]
+		}
+		if !isVals {
+			// a window of a spine or a local slice: its cells as they are when the loop starts (range evaluates its operand once)
+			if _, isSl := l.Over.(TSlice); isSl {
+				if hdr, ok := r.slice(l.Over); ok {
+					cells := r.cells(r.cur, hdr)
+					for j := range cells {
+						if l.Key != nil {
+							r.ints[l.Key] = int64(j)
+						}
+						if l.Value != nil {
+							r.bind[l.Value] = cells[j]
+						}
+						if !iterate() {
+							return false
+						}
+					}
+					return true
+				}
+				return false
+			}
 		}
 		if !isVals {
 			r.fail("range over something that is not the argument list: " + r.c.termStr(l.Over))
